@@ -121,8 +121,8 @@ def load_known():
         return json.load(f)
 
 
-def _enter_scratch():
-    d = tempfile.mkdtemp(prefix="bv_")
+def _enter_scratch(base=None):
+    d = tempfile.mkdtemp(prefix="bv_", dir=base)
     os.chdir(d)
     sys.path.insert(0, d)
     return d
@@ -138,10 +138,10 @@ def _leave_scratch(d):
 
 
 def _worker(args):
-    pid, tier, seed, idx, shard, known_sigs, mode = args
+    pid, tier, seed, idx, shard, known_sigs, mode = args[:7]
     sys.setrecursionlimit(10000)
     ctx = Ctx(pid, tier, seed, idx, known_sigs)
-    d = _enter_scratch()
+    d = _enter_scratch(args[7] if len(args) > 7 else None)
     err = None
     try:
         mod = importlib.import_module("bv.props." + pid.lower())
@@ -157,6 +157,63 @@ def _worker(args):
     finally:
         _leave_scratch(d)
     return ctx.result(err)
+
+
+def _child(task, path):
+    import pickle
+    r = _worker(task)
+    with open(path + ".tmp", "wb") as f:
+        pickle.dump(r, f)
+    os.replace(path + ".tmp", path)
+
+
+def _run_tasks(ctxm, tasks, jobs):
+    """one forked process per shard, at most `jobs` at a time; a shard process that dies without a result is a
+    harness error (never a hang, never a violation)"""
+    import pickle
+    outdir = tempfile.mkdtemp(prefix="bv_res_")
+    pending = list(enumerate(tasks))
+    running = {}
+    results = []
+    timed_out = set()
+    limit = int(os.environ.get("BV_SHARD_TIMEOUT", "900" if (tasks and tasks[0][1] == "quick") else "14400"))
+    try:
+        while pending or running:
+            while pending and len(running) < jobs:
+                i, t = pending.pop(0)
+                path = os.path.join(outdir, "r%d.pkl" % i)
+                pr = ctxm.Process(target=_child, args=(t + (outdir,), path))
+                pr.start()
+                running[i] = (pr, path, t, time.time())
+            now = time.time()
+            for i, (pr, _, t, t0) in running.items():
+                if pr.is_alive() and now - t0 > limit:
+                    # watchdog (in the parent: nothing the code under test or Hypothesis does can swallow it)
+                    pr.kill()
+                    timed_out.add(i)
+            done = [i for i, (pr, _, _, _) in running.items() if not pr.is_alive()]
+            if not done:
+                time.sleep(0.02)
+                continue
+            for i in done:
+                pr, path, t, _ = running.pop(i)
+                pr.join()
+                if i in timed_out:
+                    c = Ctx(t[0], t[1], t[2], t[3], [])
+                    results.append(c.result("shard exceeded its %ds budget and was stopped: inconclusive, not a violation" % limit))
+                    continue
+                if os.path.exists(path):
+                    with open(path, "rb") as f:
+                        results.append(pickle.load(f))
+                    os.remove(path)
+                else:
+                    c = Ctx(t[0], t[1], t[2], t[3], [])
+                    results.append(c.result("shard process died without a result (exit code %r)" % (pr.exitcode,)))
+    finally:
+        for pr, _, _, _ in running.values():
+            pr.kill()
+        shutil.rmtree(outdir, ignore_errors=True)
+    return results
 
 
 def main(argv=None):
@@ -221,10 +278,7 @@ def main(argv=None):
     for i, s in enumerate(shards):
         tasks.append((pid, a.tier, seed, i, s, known_sigs, "run"))
 
-    results = []
-    with ctxm.Pool(min(a.jobs, max(1, len(tasks))), maxtasksperchild=1) as pool:
-        for r in pool.imap_unordered(_worker, tasks, chunksize=1):
-            results.append(r)
+    results = _run_tasks(ctxm, tasks, a.jobs)
 
     errors = [r for r in results if r["error"]]
     evaluations = sum(r["evaluations"] for r in results)
